@@ -25,8 +25,8 @@ LEVEL = "exploration"
 SYMS = ["rx0A", "rx0B", "rx1C", "close0", "txA", "txB", "txT", "aa3F", "aa3E", "aa00", "lisT", "lisF"]
 SYMS_LITE = ["rx0A", "rx0B", "rx1C", "close0", "txA", "txB", "txT", "lisT", "lisF"]
 RULE = ("breadth-first small-scope sweep: all sequences over the 12-symbol alphabet {open_rx_pipe(0,A|B), "
-        "open_rx_pipe(1,C), close_rx_pipe(0), open_tx_pipe(A|B|T), auto_ack=0x3F|0x3E|0, listen=True|False} to depth 4 "
-        "(quick) / 5 (thorough), seeded sequences to depth 12 beyond; per run a seeded address width 3..5 and address "
+        "open_rx_pipe(1,C), close_rx_pipe(0), open_tx_pipe(A|B|T), auto_ack=0x3F|0x3E|0, listen=True|False} to depth 5 "
+        "(quick) / 6 (thorough), seeded sequences to depth 12 beyond; per run a seeded address width 3..5 and address "
         "family (distinct, TX sharing bytes with A, shorter than the width, TX equal to A). Non-trivial: an RX entry or "
         "a TX-mode open_tx_pipe was checked; distinct = distinct (sequence, address family, width)")
 ASSUMPTIONS = ["chip/air model decision M2 (a PTX accepts an ACK only on enabled pipe 0 with RX_ADDR_P0 = TX_ADDR)",
@@ -42,7 +42,7 @@ def _nseq(depth, k=12):
 
 
 def count(tier):
-    return _nseq(4) + 1500 if tier == "quick" else _nseq(5) + 20000
+    return _nseq(5) + 3000 if tier == "quick" else _nseq(6) + 40000
 
 
 def exhaustive(tier):
@@ -65,9 +65,9 @@ def make(i, base_seed, tier, lite=False):
     seed = base_seed * 1_000_003 + i
     rng = stream(seed, "work")
     syms = SYMS_LITE if lite else SYMS
-    depth = 4 if tier == "quick" else 5
+    depth = 5 if tier == "quick" else 6
     if lite:
-        depth = min(depth, 4)
+        depth = min(depth, 5)
     n = _nseq(depth, len(syms))
     if i < n:
         ops = [syms[j] for j in _decode(i, len(syms))]
